@@ -1,5 +1,8 @@
 """C02 - token streams are well nested, correctly levelled and tree-constructible.
 
+E1: TokenProducer.tla - how the inline parser produces a children list (push with delimiter contexts,
+pairing of delimiters within one context, re-levelling in fragments_join) implies the acceptor's
+clauses; without re-levelling or with pairs straddling a context the model violates them.
 Inputs: DocGen (L1 line shapes, L2 inline fragments, L0 characters) x ConfigGen configurations,
 through parse and parseInline.  Each returned stream is serialised depth-first and validated by
 TLC against the pushdown acceptor TokenStreamTrace.tla (one clause per phrase of the statement).
@@ -79,7 +82,19 @@ def jobs_for(tier, rep):
     return jobs
 
 
+def design_model(rep):
+    """E1: mechanism => property, and the two mechanisms the property rests on are necessary."""
+    r = C.run_tlc("TokenProducer", "TokenProducer.cfg", allow_violation=False, workers=8)
+    rep.tlc("TokenProducer[push / pair-in-context / relevel]", r)
+    for cfg in ("TokenProducer_norelevel.cfg", "TokenProducer_crossctx.cfg"):
+        rv = C.run_tlc("TokenProducer", cfg, workers=8)
+        if rv.ok or rv.violated != "WellFormed":
+            raise C.MachineryError(f"TokenProducer[{cfg}] no longer violates WellFormed (vacuity guard)")
+        rep.tlc(f"TokenProducer[{cfg}, expected counter-example]", rv)
+
+
 def run(tier, rep):
+    design_model(rep)
     jobs = jobs_for(tier, rep)
     res = C.pmap(record, jobs, chunk=200)
     traces = [r[0] for r in res]
